@@ -747,6 +747,60 @@ fn run_case(w: &mut Worker, c: &Case, l: &mut Local) -> Option<(Vec<u8>, Vec<u8>
         l.violation(&panic_key("server", msg, loc), &format!("the server panicked on a {} request ({}; now - time signed = {}, fudge {}): {msg} at {}", c.kind.name(), c.class, c.now as i128 - c.time as i128, c.fudge, vcore::short_loc(loc)), || c.json());
         return None;
     }
+    // (A) reply-signing policy, for EVERY request of every family: the server computes a MAC over a
+    // reply (whose digest starts with the request's MAC FIELD, attacker-chosen octets) only after
+    // that request's MAC verified under a configured key. RFC 8945 5.3.2: BADKEY / BADSIG replies
+    // are unsigned; BADTIME is signed, and is reached only after the MAC verified (5.2.3). So:
+    // reply carries a MAC valid under key k  =>  the reference verifies the request's MAC under k
+    // (its time may lie outside the window).
+    {
+        let kc = match c.kind {
+            Kind::Axfr => "axfr",
+            Kind::Notify => "notify",
+            Kind::QuerySoa => "query",
+            _ => "update",
+        };
+        let rsplit = rt::split(&c.bytes).ok();
+        let req_mac = rsplit.as_ref().map(|s| s.tsig.mac.clone()).unwrap_or_default();
+        let mac_ok_under = |k: &Key| matches!(rt::verify_request(&c.bytes, std::slice::from_ref(k), c.now), Ok(_) | Err(rt::Reject::BadTime));
+        let any_ok = keys.iter().any(|k| mac_ok_under(k));
+        let fresh = rsplit.as_ref().map(|s| (c.now as i128 - s.tsig.time as i128).abs() <= s.tsig.fudge as i128);
+        let quadrant = format!("{}:{}", if rsplit.is_none() { "no-tsig" } else if any_ok { "mac-good" } else { "mac-bad" }, match fresh { None => "-", Some(true) => "fresh", Some(false) => "stale" });
+        let mut signed_reply = false;
+        for r in obs.replies.iter().flatten() {
+            let Ok(rs) = rt::split(r) else { continue };
+            if rs.tsig.mac.is_empty() {
+                continue;
+            }
+            for k in &keys {
+                // the digest of a reply starts with the request MAC as found on the wire; a MAC over
+                // the reply with an empty or without any prefix is a signature all the same
+                let ok = |x: Result<(), rt::Reject>| matches!(x, Ok(()) | Err(rt::Reject::BadTime));
+                if ok(rt::verify_response(r, k, c.now, &req_mac)) || ok(rt::verify_response(r, k, c.now, &[])) || ok(rt::verify_request(r, std::slice::from_ref(k), c.now).map(|_| ())) {
+                    signed_reply = true;
+                    if !mac_ok_under(k) {
+                        let err = match rs.tsig.error {
+                            0 => "noerror".to_string(),
+                            16 => "badsig".into(),
+                            17 => "badkey".into(),
+                            18 => "badtime".into(),
+                            e => format!("error{e}"),
+                        };
+                        l.violation(
+                            &format!("reply-signed-for-a-request-whose-mac-does-not-verify:{kc}:{err}-reply:{quadrant}"),
+                            &format!("the reply carries a TSIG whose MAC is valid under the configured key {} (digest: request MAC field | reply | TSIG variables) although the request's own MAC does not verify under that key ({}): the server MACed attacker-chosen octets without authentication (RFC 8945 5.3.2: such a response is unsigned); {scene}", vupd::name_str(&k.name), match rt::verify_request(&c.bytes, std::slice::from_ref(k), c.now) { Err(e) => format!("{e:?}"), Ok(_) => "ok".into() }),
+                            || {
+                                let mut j = c.json();
+                                j["reply_hex"] = json!(hex::enc(r));
+                                j
+                            },
+                        );
+                    }
+                }
+            }
+        }
+        l.outcome(&format!("signing:{kc}:{quadrant}:{}", if signed_reply { "reply-signed" } else { "reply-not-signed" }));
+    }
     if !c.kind.judged() {
         // NOTIFY / ordinary query with a TSIG: outside the statement; only "no panic" (above) and
         // "the zone does not change"
@@ -1214,7 +1268,7 @@ fn main() {
             ctx.with_local(|l| run_client_path(&mut w, kind, alg, fudge, path, sh.as_ref(), l));
             ctx.finish(false);
         }
-        if case["second_step"].as_bool() == Some(true) {
+        if case["second_step"].as_bool() == Some(true) || case["two_step_closure"].as_bool() == Some(true) {
             ctx.with_local(|l| second::replay(&mut w, &case, l));
             ctx.finish(false);
         }
@@ -1292,7 +1346,15 @@ fn main() {
          accepted update, accepted AXFR, signed NOTIFY / query, the same octets = replay, replay after the window, every honest kind) and after \
          every ordered PAIR of honest requests: reply octets and zone equal those of a fresh handler in the same zone state, accepted update \
          = RFC 2136 on the state the first left, signed AXFR lists exactly the current zone; the first request's TSIG on another body must \
-         not take effect.",
+         not take effect. REPLY-SIGNING POLICY (fifth seed round; judged for EVERY request of every part, incl. signed NOTIFY / query): a \
+         reply carries a MAC that is valid under a configured key k (digest prefixed by the request's MAC field as on the wire, by an empty \
+         MAC, or unprefixed) only if the reference verifies the REQUEST's MAC under k (its time may be outside the window) - RFC 8945 5.3.2: \
+         BADKEY / BADSIG responses are unsigned, BADTIME is signed only after the MAC verified; the quadrants (MAC good / bad / no TSIG) x \
+         (fresh / stale) x (reply signed / not) are counted per request kind. TWO-STEP CLOSURE: for 8 unauthenticated first requests (bad \
+         MAC fresh / stale / time signed 1, unknown key, unsigned, MAC field = chosen octets stale / fresh, AXFR) the second request is \
+         assembled from the reply's octets by a grammar (reply TSIG verbatim on an update / AXFR body; reply MAC + time + fudge [+ error + \
+         other] with original id in {body id, 0, length of the first MAC field, the reply's}; the digest-collision layout with the reply \
+         embedded as RDATA of a filler record; the first request's own TSIG): none may take effect, whatever a verifier says.",
     );
     ctx.assume("ring's HMAC is correct; vref::tsig (RFC 8945 4.3.3 digest from the raw bytes) is the reference for 'carries a valid, timely TSIG'");
     ctx.assume("the handler keeps no state besides the record store: the store content is put back after a request that changed it");
@@ -1528,10 +1590,20 @@ fn main() {
     ctx.par_run_init(h_vars.len() as u64, 1, |_| Worker::new(), |i, l, w| {
         set_var(h_vars[i as usize]);
         second::run(w, l);
+        second::closure(w, l);
         set_var(Var::DEFAULT);
     });
 
     for class in [
+        "signing:update:mac-bad:stale:reply-not-signed",
+        "signing:update:mac-bad:fresh:reply-not-signed",
+        "signing:update:mac-good:stale:reply-signed",
+        "signing:update:mac-good:fresh:reply-signed",
+        "signing:axfr:mac-bad:stale:reply-not-signed",
+        "signing:axfr:mac-good:stale:reply-signed",
+        "signing:query:mac-bad:stale:reply-not-signed",
+        "signing:notify:mac-bad:stale:reply-not-signed",
+        "two-step-closure:no-effect",
         "second-step:same-as-fresh-handler",
         "second-step:second-rejected:no-effect",
         "second-step:update-applied-on-top-of-the-first",
